@@ -69,6 +69,7 @@ type part struct {
 	proposed bool
 	sealed   *types.Block // block sealed in the current round
 	held     map[uint32][]heldMsg
+	dead     bool // sealed a block with an invalid signature: takes no further part
 }
 
 type wmsg struct {
@@ -90,24 +91,25 @@ type wmsg struct {
 }
 
 type c41 struct {
-	run          *kernel.Run
-	w            *chain.World
-	parts        []*part
-	byIdx        map[uint32]*part
-	N, C         uint32
-	cfg          *vconfig.ChainConfig
-	blk          uint32
-	msgs         []*wmsg
-	roundFirst   int
-	models       []map[uint32]*roundModel
-	nbyz         int
-	txNonce      uint32
-	sealedCnt    int
-	rounds       int
-	unstableSeen map[string]bool
-	failedKeys   map[string]bool
-	outsider     *account.Account
-	stop         bool
+	run        *kernel.Run
+	w          *chain.World
+	parts      []*part
+	byIdx      map[uint32]*part
+	N, C       uint32
+	cfg        *vconfig.ChainConfig
+	blk        uint32
+	msgs       []*wmsg
+	roundFirst int
+	models     []map[uint32]*roundModel
+	nbyz       int
+	txNonce    uint32
+	sealedCnt  int
+	rounds     int
+	failedKeys map[string]bool
+	anyDead    bool
+	diverged   bool // two nodes sealed different blocks (asserted only with at most C Byzantine)
+	outsider   *account.Account
+	stop       bool
 }
 
 func (c *c41) model(node int, blk uint32) *roundModel {
@@ -122,7 +124,7 @@ func (c *c41) model(node int, blk uint32) *roundModel {
 // fail records a violation once per key and run. Quorum-level violations do not end the run
 // (later oracles - sealing, agreement - are what they lead to); the others do.
 func (c *c41) fail(key, format string, a ...interface{}) {
-	fatal := !(strings.HasPrefix(key, "quorum-") || strings.Contains(key, "-below-quorum") || strings.Contains(key, "depends-on-map-order") || key == "pools-sealed-different-blocks")
+	fatal := !(key == "sealed-invalid-signature" || strings.HasPrefix(key, "quorum-") || strings.Contains(key, "-below-quorum") || strings.Contains(key, "depends-on-map-order") || key == "pools-sealed-different-blocks")
 	if fatal {
 		c.stop = true
 	}
@@ -519,14 +521,18 @@ func kindName(k int) string { return []string{"proposal", "endorse", "commit"}[k
 
 func (c *c41) trySeal(r *part, why string) {
 	run := c.run
-	if r.sealed != nil || c.stop {
+	if r.sealed != nil || c.stop || r.dead {
 		return
 	}
 	blk := c.blk
 	if r.vn.CurrentBlockNum() != blk {
 		return
 	}
-	cd, usable := c.commitAnswer(r, blk, c.view(r, blk))
+	v := c.view(r, blk)
+	if len(v.commits) == 0 && !r.vn.CommittedForBlock(blk) {
+		return // the Server has not looked at commitDone yet (no commit message, not committed)
+	}
+	cd, usable := c.commitAnswer(r, blk, v)
 	if !usable {
 		run.Logf("seal(%s) node %d: commit decision depends on map order, not used", why, r.idx)
 		return
@@ -570,6 +576,11 @@ func (c *c41) trySeal(r *part, why string) {
 	mod := c.model(r.pos, blk)
 	run.Logf("seal(%s) node %d block %d: proposer %d empty=%v txs=%d", why, r.idx, blk, cd.p, cd.fe, len(sealed.Transactions))
 	// agreement between pools
+	for _, o := range c.parts {
+		if o != r && o.sealed != nil && o.sealed.Hash() != h {
+			c.diverged = true
+		}
+	}
 	if c.nbyz <= int(c.C) {
 		for _, o := range c.parts {
 			if o != r && o.sealed != nil && o.sealed.Hash() != h {
@@ -615,6 +626,10 @@ func (c *c41) trySeal(r *part, why string) {
 	if len(invalid) > 0 {
 		c.fail("sealed-invalid-signature", "node %d block %d (proposer %d empty=%v): the sealed block carries signatures attributed to participants %v that do not verify for the sealed header (bookkeepers %v); model: valid supporters of this block hash are %v",
 			r.idx, blk, cd.p, cd.fe, invalid, signerIdx, setStr(sup))
+		// whether the ledger takes such a block depends on the position of the bad signature
+		// (map order): the node is left out of the rest of the run instead
+		r.dead = true
+		c.anyDead = true
 		return
 	}
 	if len(strangers) > 0 {
@@ -694,7 +709,7 @@ func (c *c41) selfDeliver(r *part, msg vbft.ConsensusMsg) {
 func (c *c41) doPropose(st kernel.Step) {
 	run := c.run
 	r := c.pickPart(st.Arg(0))
-	if r.sealed != nil || r.vn.CurrentBlockNum() != c.blk {
+	if r.sealed != nil || r.dead || r.vn.CurrentBlockNum() != c.blk {
 		run.Logf("propose %d: noop (round over for this node)", r.idx)
 		return
 	}
@@ -770,7 +785,7 @@ func (c *c41) doEndorse(st kernel.Step) {
 	run := c.run
 	r := c.pickPart(st.Arg(0))
 	empty := st.Arg(2)&1 == 1
-	if r.sealed != nil || r.vn.CurrentBlockNum() != c.blk {
+	if r.sealed != nil || r.dead || r.vn.CurrentBlockNum() != c.blk {
 		run.Logf("endorse %d: noop (round over for this node)", r.idx)
 		return
 	}
@@ -926,7 +941,7 @@ func (c *c41) endorsementsFor(r *part, hash common.Uint256, empty bool) []vbft.C
 func (c *c41) doCommit(st kernel.Step) {
 	run := c.run
 	r := c.pickPart(st.Arg(0))
-	if r.sealed != nil || r.vn.CurrentBlockNum() != c.blk {
+	if r.sealed != nil || r.dead || r.vn.CurrentBlockNum() != c.blk {
 		run.Logf("commit %d: noop (round over for this node)", r.idx)
 		return
 	}
@@ -936,10 +951,18 @@ func (c *c41) doCommit(st kernel.Step) {
 			run.Logf("commit %d: noop (already committed)", r.idx)
 			return
 		}
-		ed, usable := c.endorseAnswer(r, c.blk, c.view(r, c.blk))
+		v := c.view(r, c.blk)
+		ed, usable := c.endorseAnswer(r, c.blk, v)
 		if !usable {
-			run.Logf("commit %d: noop (endorse decision depends on map order)", r.idx)
-			return
+			// several answers are possible; which one this node gets is up to its map layout:
+			// the plan chooses.
+			cands := v.endorseCandidates(c.C)
+			if len(cands) == 0 {
+				run.Logf("commit %d: noop (endorse decision unstable)", r.idx)
+				return
+			}
+			ed = cands[int((st.Arg(1)&0x7fffffff)%int64(len(cands)))]
+			run.Probe("commit_on_one_of_several_endorse_quorums")
 		}
 		if !ed.done {
 			run.Logf("commit %d: noop (endorse not done)", r.idx)
@@ -1123,6 +1146,9 @@ func (c *c41) doReencode(st kernel.Step) {
 }
 
 func (c *c41) deliver(m *wmsg, r *part) {
+	if r.dead {
+		return
+	}
 	if m.sender == r.pos && m.fault == "" {
 		// the sender already processed its own honest message
 		c.run.Logf("deliver msg %d -> node %d: own message", m.id, r.idx)
@@ -1194,6 +1220,14 @@ func (c *c41) endRound(drain bool) bool {
 			return false
 		}
 	}
+	if c.anyDead {
+		run.Logf("round block %d: a node sealed a block with an invalid signature; run ends", c.blk)
+		return false
+	}
+	if c.diverged {
+		run.Logf("round block %d: the nodes' chains have diverged; run ends", c.blk)
+		return false
+	}
 	var ref *part
 	for _, p := range c.parts {
 		if p.sealed != nil {
@@ -1254,7 +1288,7 @@ func execC41(run *kernel.Run) {
 	if n > 10 {
 		n = 10
 	}
-	c := &c41{run: run, N: uint32(n), byIdx: map[uint32]*part{}, unstableSeen: map[string]bool{}, failedKeys: map[string]bool{}}
+	c := &c41{run: run, N: uint32(n), byIdx: map[uint32]*part{}, failedKeys: map[string]bool{}}
 	if p.C("strict", 0) == 1 {
 		// main net past the legacy-threshold height: the ledger demands N - floor((N-1)/3) signatures
 		old := ledgerstore.VerifLegacyQuorumHeight
@@ -1586,7 +1620,7 @@ func genC41(rng *kernel.RNG, idx int, tier string) *kernel.Plan {
 		for wv := 0; wv < cw; wv++ {
 			for _, who := range rng.Perm(n) {
 				if rng.Chance(0.9) {
-					add("commit", int64(who), 0, 0, 0, 0)
+					add("commit", int64(who), int64(rng.Intn(4)), 0, 0, 0)
 				}
 				if byz > 0 && rng.Chance(0.35) {
 					byzStep("commit")
@@ -1618,12 +1652,12 @@ func genC41(rng *kernel.RNG, idx int, tier string) *kernel.Plan {
 func init() {
 	kernel.Register(&kernel.Check{
 		ID: "C41", Level: "exploration", Engine: "E4 round (VBFT round decisions)",
-		Rule: "a run is 1-3 consensus rounds among N=4..10 participants (C=floor((N-1)/3), 0..C+1 of them Byzantine), each with a real BlockPool over its own real ledger; the plan schedules proposals, endorsements, empty-block (timeout) endorsements, commits, seals and message deliveries (per-receiver order, withholding, duplication, replays from older rounds); honest participants act on their own pool as the Server would, Byzantine ones equivocate, spoof indices, forge embedded endorser signatures, vote for other block numbers/hashes; every message travels as a signed ConsensusPayload and is decoded and verified before it reaches a pool; the oracle runs after every message; non-trivial = at least one fault fired and at least one node sealed a block; distinct = trace digest of the run",
-		Real: []string{"consensus/vbft BlockPool (newBlockProposal, newBlockEndorsement, newBlockCommitment, addBlockEndorsementLocked, endorseDone, endorseFailed, commitDone, setBlockSealed, addSignaturesToBlockLocked, setProposalEndorsed/Committed), getCommitConsensus, isEndorser/isCommitter, buildParticipantConfig, constructProposalMsg/constructBlock, constructEndorseMsg, constructCommitMsg, computeVrf, MsgPool, PeerPool, ChainStore (AddBlock, submitBlock) through export_verif.go", "SerializeVbftMsg/DeserializeVbftMsg, message Verify methods, p2p ConsensusPayload codec + Verify", "core/ledger + ledgerstore (ExecuteBlock, SubmitBlock, verifyHeader) on every node; genesis chain config from genConsensusPayload"},
-		Stub: []string{"VBFT Server state machine, timers and goroutines: replaced by plan-scheduled actions that mirror processMsgEvent / endorseBlock / commitBlock / sealBlock / timeouts", "network: message table with plan-driven delivery", "the Server's pre-pool proposal checks other than signatures (prev hash, VRF proof, timestamp) are not repeated: all proposals are built by the real constructProposalMsg"},
+		Rule: "a run is 1-3 consensus rounds among N=4..10 participants (C=floor((N-1)/3), 0..C+1 of them Byzantine), each with a real BlockPool over its own real ledger; the plan schedules proposals, endorsements, empty-block (timeout) endorsements, commits, seals and message deliveries (per-receiver order, withholding, duplication, re-encoded copies, replays from older rounds); honest participants act on their own pool as the Server would, Byzantine ones (signing with their own keys only) equivocate, write other participants' indices into their messages, embed forged endorser signatures in commits, vote for other block numbers/hashes; every message travels as a signed ConsensusPayload through an admission shim that repeats the Server's checks line by line before it reaches a pool; the oracle runs after every message; non-trivial = at least one fault fired and at least one node sealed a block; distinct = trace digest of the run",
+		Real: []string{"consensus/vbft BlockPool (newBlockProposal, newBlockEndorsement, newBlockCommitment, addBlockEndorsementLocked, endorseDone, endorseFailed, commitDone, setBlockSealed, addSignaturesToBlockLocked, setProposalEndorsed/Committed), getCommitConsensus, isEndorser/isCommitter, buildParticipantConfig, constructProposalMsg/constructBlock, constructEndorseMsg, constructCommitMsg, computeVrf, MsgPool (AddMsg/HasMsg/GetEndorsementsMsgs), PeerPool, ChainStore (AddBlock, submitBlock) through export_verif.go", "SerializeVbftMsg/DeserializeVbftMsg, the messages' Verify methods, p2p ConsensusPayload codec + Verify, ontology-crypto vrf.Verify", "core/ledger + ledgerstore (ExecuteBlock, SubmitBlock, verifyHeader) on every node; genesis chain config from genConsensusPayload"},
+		Stub: []string{"VBFT Server state machine, timers and goroutines: replaced by (a) an admission shim that mirrors ConsensusHandle, NewConsensusPayload, run(), onConsensusMsg, processProposalMsg and startNewRound's loading of stored messages (file:line in c41.go), (b) plan-scheduled actions that mirror endorseBlock / commitBlock / sealBlock and the timeouts; the commit decision is looked at only where the Server looks at it (commit message held or node has committed)", "network: message table with plan-driven delivery", "LastConfigBlockNum / chain-config-hash checks of processProposalMsg (no config-change blocks here) and tx-pool verification of proposal transactions are not modelled"},
 		Assumptions: []string{"the reference model counts a member as supporter of a proposal when a message that passed the Server's own checks carries a signature of that member's key over that proposal's block hash; a proposal is (proposer, empty?, block hash); the proposer's signatures on its block and its empty block count as its support of both",
 			"endorseDone/commitDone return the first quorum their Go map iteration meets; where the pool's records hold more than one quorum the answer is not a function of the state (reported under C16): the harness then checks every answer that its analysis of the records finds possible against the model, cross-checks that analysis against sampled answers (probe analysis_missed_*, must stay 0) and lets no action depend on the sampled answer (honest participants wait, no seal)",
-			"for N divisible by 3 the genesis C = N/3 admits no participant selection (C40 finding); those runs use C = floor((N-1)/3)",
+			"C is the chain configuration's (GenesisChainConfig: floor((N-1)/3) since the C40 repair; a tree without it would be run with that value for N divisible by 3, where N/3 admits no selection)",
 			"ECDSA signatures, VRF proofs and block nonces are randomised: block hashes differ between executions of one plan and are never logged or used to order anything",
 			"agreement between pools is asserted only with at most C Byzantine participants; quorum-level violations do not end a run (the seal and agreement oracles show what they lead to), all others do"},
 		QuickRuns: 1200, ThoroughRuns: 90000, QuickCap: 50, ThoroughCap: 800,
